@@ -20,12 +20,14 @@ class MeshRec:
 
 
 class ModelRec:
-    def __init__(self, kind, params):
+    def __init__(self, kind, params, mesh=None):
         self.kind = kind
         self.params = dict(params)
-        self.live = simlib.make_model(kind, params)
+        self.live = self.fresh(mesh)
 
-    def fresh(self):
+    def fresh(self, mesh=None):
+        if self.kind.startswith("wf_"):
+            return simlib.make_weakforms(mesh, self.params)
         return simlib.make_model(self.kind, self.params)
 
 
@@ -43,6 +45,9 @@ class SimRec:
         self.hist_i = 0  # current index into mesh_hist (the simulation's mesh index)
         self.live = None
         self.solved = False
+        self.extra_reset = False  # mesh replaced and nothing solved/restored since
+        self.pf_solved = False
+        self.lin_dirty = True  # PhaseField: an invalidating mutator happened since the last Solve
 
 
 class FreshWorld(World):
@@ -53,26 +58,33 @@ class FreshWorld(World):
     @classmethod
     def gen_config(cls, rng, tier, faults):
         lib = meshlib.library()
-        three_d = rng.random() < (0.2 if tier == "quick" else 0.3)
+        three_d = rng.random() < (0.15 if tier == "quick" else 0.25)
         dim = 3 if three_d else 2
         maxNn = 40 if tier == "quick" else 80
         cands = [n for n in meshlib.names(dim=dim) if lib[n].Nn <= maxNn]
+        small = [n for n in cands if lib[n].Nn <= 30 and lib[n].main[0][0] in ("TRI3", "QUAD4", "TRI6", "HEXA8")] or cands
         n_mesh = int(rng.integers(1, 3))
-        meshes = [cands[int(rng.integers(len(cands)))] for _ in range(n_mesh)]
-        n_sim = int(rng.integers(1, 4))
+        types = ["Elastic", "Thermal", "PhaseField", "HyperElastic", "InElastic", "WeakForms"]
+        pt = np.array([3, 2, 1.5, 1.5, 1.5, 1.0]) if dim == 2 else np.array([3, 2, 0.3, 0.5, 0.5, 0.0])
+        n_sim = int(rng.choice([1, 2, 3], p=[0.5, 0.3, 0.2]))
+        sts = [types[int(rng.choice(len(types), p=pt / pt.sum()))] for _ in range(n_sim)]
+        heavy = any(t not in ("Elastic", "Thermal") for t in sts)
+        pool = small if heavy else cands
+        meshes = [pool[int(rng.integers(len(pool)))] for _ in range(n_mesh)]
         sims = []
         models = []
-        for s in range(n_sim):
-            st = ["Elastic", "Thermal"][int(rng.integers(2))]
-            kind = simlib.SIM_MODEL[st]
-            # share an existing model of the right kind with probability 1/2
-            same = [i for i, m in enumerate(models) if m["kind"] == kind]
+        for st in sts:
+            kinds = simlib.SIM_MODEL[st]
+            kind = kinds[int(rng.integers(len(kinds)))]
+            mi = int(rng.integers(n_mesh))
+            # share an existing model of the right kind with probability 1/2 (weak forms are bound to one mesh)
+            same = [i for i, m in enumerate(models) if m["kind"] == kind and not kind.startswith("wf_")]
             if same and rng.random() < 0.5:
                 mo = same[int(rng.integers(len(same)))]
             else:
-                models.append({"kind": kind, "params": simlib.gen_model_params(kind, rng, dim)})
+                models.append({"kind": kind, "params": simlib.gen_model_params(kind, rng, dim), "mesh": mi})
                 mo = len(models) - 1
-            sims.append({"type": st, "mesh": int(rng.integers(n_mesh)), "model": mo})
+            sims.append({"type": st, "mesh": mi, "model": mo})
         nops = int(rng.integers(8, 26 if tier == "quick" else 41))
         return {"dim": dim, "meshes": meshes, "models": models, "sims": sims, "nops": nops, "faults": bool(faults)}
 
@@ -88,7 +100,7 @@ class FreshWorld(World):
         self.dim = cfg["dim"]
         with ctx.sut():
             self.meshes = [MeshRec(lib[n]) for n in cfg["meshes"]]
-            self.models = [ModelRec(m["kind"], m["params"]) for m in cfg["models"]]
+            self.models = [ModelRec(m["kind"], m["params"], self.meshes[m.get("mesh", 0)].live) for m in cfg["models"]]
             self.sims = []
             for s in cfg["sims"]:
                 rec = SimRec(s["type"], s["mesh"], s["model"])
@@ -104,7 +116,7 @@ class FreshWorld(World):
         """A brand-new simulation in the recorded final configuration."""
         mrec = self.meshes[rec.mesh_i]
         mesh = meshlib.build(mrec.raw, coord=mrec.coord)
-        model = self.models[rec.model_i].fresh()
+        model = self.models[rec.model_i].fresh(mesh)
         sim = simlib.make_sim(rec.type, mesh, model)
         sim.rho = rec.rho
         if rec.type == "Elastic":
@@ -117,11 +129,28 @@ class FreshWorld(World):
                 sim._Bc_Add_Neumann(pt, nodes, values, dofs, unknowns)
         if with_state:
             simlib.set_state(sim, simlib.get_state(rec.live))
+            if rec.extra_reset:
+                pass  # a replaced mesh has no history: the reference keeps the empty state of a new simulation
+            else:
+                simlib.set_extra(sim, rec.type, simlib.get_extra(rec.live, rec.type))
         return sim
 
     # ------------------------------------------------------------------ generation
+    def _usets(self, rec: SimRec) -> list:
+        """Subsets of unknowns that a condition may address (first = all of them)."""
+        un = list(rec.live.Get_unknowns())
+        if len(un) == 1:
+            return [un]
+        out = [un, [un[0]], [un[-1]], list(reversed(un))]
+        if len(un) == 3:
+            out.append([un[2], un[1]])
+        return out
+
+    def _small_values(self, rec: SimRec) -> bool:
+        return rec.type in ("HyperElastic", "InElastic", "PhaseField")
+
     def _well_posed(self, rec: SimRec) -> bool:
-        need = set(simlib.all_unknowns(rec.type, self.dim))
+        need = set(rec.live.Get_unknowns())
         have = set()
         for kind, pt, nodes, dofs, values, unknowns in rec.bcs:
             if kind == "D" and len(nodes) >= 2:
@@ -131,7 +160,26 @@ class FreshWorld(World):
     def gen_op(self, rng, frng):
         s = int(rng.integers(len(self.sims)))
         rec = self.sims[s]
-        mrec_i = int(rng.integers(len(self.meshes)))
+        # meshes in use are moved more often than idle ones
+        used = sorted({r.mesh_i for r in self.sims})
+        mrec_i = used[int(rng.integers(len(used)))] if rng.random() < 0.8 else int(rng.integers(len(self.meshes)))
+        # after a mutator, read an affected simulation next with probability 0.6 (faults/staleness need in-flight state)
+        pend = getattr(self, "_pending", None)
+        self._pending = None
+        if pend is not None and rng.random() < 0.6:
+            cands = [i for i in pend if i < len(self.sims)]
+            if cands:
+                s = cands[int(rng.integers(len(cands)))]
+                rec = self.sims[s]
+                reads = []
+                if self._well_posed(rec):
+                    reads += ["solve"] * 3
+                if rec.type not in simlib.NONLINEAR:
+                    reads += ["kcmf"] * 2
+                if rec.solved:
+                    reads += ["result"]
+                if reads:
+                    return self._finish_op({"op": reads[int(rng.integers(len(reads)))]}, s, rec, rng, frng, mrec_i)
         w = {
             "param": 3, "rho": 1, "rayleigh": 1, "translate": 1, "rotate": 1.5, "symmetry": 0.7,
             "coord": 2, "setmesh": 1, "bc_init": 0.5, "dirichlet": 3, "load": 2, "algo": 1.5,
@@ -139,6 +187,12 @@ class FreshWorld(World):
         }
         if rec.type != "Elastic":
             w["rayleigh"] = 0
+        if rec.type in simlib.NONLINEAR:
+            w["kcmf"] = 0  # the tangent system of a nonlinear simulation only exists inside a Newton loop
+        if rec.type == "WeakForms":
+            w["setmesh"] = 0  # the Field of a weak-form model is bound to one element group by construction
+        if rec.type in ("PhaseField", "InElastic", "Thermal", "WeakForms"):
+            w["rho"] = 0.3
         if self.dim == 3:
             w["symmetry"] = 0.4
         if not self._well_posed(rec):
@@ -148,10 +202,15 @@ class FreshWorld(World):
             w["result"] = 0.3
         if not rec.iters:
             w["set_iter"] = 0
+        if len(simlib.sim_algos(rec.type)) > 1 and rec.algo["algo"] == "elliptic":
+            w["algo"] = 3
         names = sorted(w)
         p = np.array([w[n] for n in names], dtype=float)
         name = names[int(rng.choice(len(names), p=p / p.sum()))]
-        op = {"op": name}
+        return self._finish_op({"op": name}, s, rec, rng, frng, mrec_i)
+
+    def _finish_op(self, op, s, rec, rng, frng, mrec_i):
+        name = op["op"]
         tags = simlib.boundary_tags(self.meshes[rec.mesh_i].raw)
         if name == "param":
             mo = int(rng.integers(len(self.models)))
@@ -184,13 +243,14 @@ class FreshWorld(World):
         elif name == "bc_init":
             op.update(s=s)
         elif name == "dirichlet":
-            us = simlib.unknown_sets(rec.type, self.dim)
+            us = self._usets(rec)
             full = not self._well_posed(rec) and rng.random() < 0.8
             un = us[0] if full else us[int(rng.integers(len(us)))]
-            vals = {"const": np.round(rng.uniform(-1, 1, len(un)) * (rng.random() < 0.7), 4).tolist()} if rng.random() < 0.7 else {"aseed": int(rng.integers(1 << 30)), "scale": 0.1}
+            sc = 0.03 if self._small_values(rec) else 1.0
+            vals = {"const": np.round(rng.uniform(-1, 1, len(un)) * sc * (rng.random() < 0.7), 5).tolist()} if rng.random() < 0.7 else {"aseed": int(rng.integers(1 << 30)), "scale": 0.1 * sc}
             op.update(s=s, tag=tags[int(rng.integers(len(tags)))], unknowns=un, vals=vals)
         elif name == "load":
-            us = simlib.unknown_sets(rec.type, self.dim)
+            us = self._usets(rec)
             un = us[int(rng.integers(len(us)))]
             kind = ["neumann", "lineLoad", "surfLoad", "volumeLoad"][int(rng.integers(4))]
             if self.dim == 3 and kind == "lineLoad":
@@ -198,7 +258,8 @@ class FreshWorld(World):
             tag = tags[int(rng.integers(len(tags)))]
             if kind == "volumeLoad":
                 tag = "V0" if self.dim == 3 else "S0"
-            op.update(s=s, kind=kind, tag=tag, unknowns=un, vals={"const": np.round(rng.uniform(-2, 2, len(un)), 4).tolist()})
+            sc = 0.05 if self._small_values(rec) else 1.0
+            op.update(s=s, kind=kind, tag=tag, unknowns=un, vals={"const": np.round(rng.uniform(-2, 2, len(un)) * sc, 5).tolist()})
         elif name == "algo":
             op.update(s=s, spec=simlib.gen_algo(rec.type, rng))
         elif name in ("solve", "kcmf", "save_iter"):
@@ -212,6 +273,13 @@ class FreshWorld(World):
             op.update(s=s, i=int(rng.integers(len(rec.iters))))
         if name in ("solve", "kcmf", "result"):
             op["_mut"] = name == "solve"
+        # who is affected by this mutator?
+        if name == "param":
+            self._pending = [i for i, r in enumerate(self.sims) if r.model_i == op["m"]]
+        elif name in ("translate", "rotate", "symmetry", "coord"):
+            self._pending = [i for i, r in enumerate(self.sims) if r.mesh_i == op["mesh"]]
+        elif name in ("rho", "rayleigh", "algo", "set_iter", "dirichlet", "load"):
+            self._pending = [s]
         return op
 
     # ------------------------------------------------------------------ helpers
@@ -244,6 +312,14 @@ class FreshWorld(World):
     def _compare_systems(self, rec: SimRec, what: str):
         F = self.fresh_sim(rec)
         live = rec.live
+        if rec.type in simlib.NONLINEAR:
+            return F
+        if rec.type == "PhaseField" and not rec.lin_dirty:
+            # the staggered scheme linearises about the previous iterate: right after a Solve the assembled
+            # operators are K(u_k, d_k+1) by design, not those of the final state. They must agree with a fresh
+            # build again as soon as any mutator invalidates them.
+            self.ctx.probe("pf_compare_skipped_linearisation_point")
+            return F
         with self.ctx.sut():
             ref = [F.Get_K_C_M_F(pt) for pt in F.Get_problemTypes()]
         try:
@@ -252,8 +328,11 @@ class FreshWorld(World):
         except SutError as e:
             raise Violation("live-raises-fresh-succeeds", f"{what}: Get_K_C_M_F raised {e}", e.site)
         for pt, g, r in zip(live.Get_problemTypes(), got, ref):
+            if any(M.nnz and not np.all(np.isfinite(M.data)) for M in r):
+                raise Discard("operators of the fresh simulation are not finite (degenerate split state)")
+            kscale = refs.maxabs(r[0].data) if r[0].nnz else 0.0
             for nm, A, B in zip("KCMF", g, r):
-                refs.sparse_close("stale-system", f"{what}: {nm} ({pt}) of the live simulation vs fresh build", A, B, rtol=1e-9)
+                refs.sparse_close("stale-system", f"{what}: {nm} ({pt}) of the live simulation vs fresh build", A, B, rtol=1e-9, atol=1e-15 * kscale)
                 self.ctx.checked()
         return F
 
@@ -272,17 +351,22 @@ class FreshWorld(World):
 
         if name == "param":
             mo = self.models[op["m"]]
-            if op["name"] not in mo.params:
+            if op["name"].replace("mat.", "") not in mo.params:
+                return "skip"
+            if mo.kind == "behavior" and op["name"] == "planeStress" and mo.params["dim"] == 3:
                 return "skip"
             with ctx.sut():
-                setattr(mo.live, op["name"], op["val"])
-            mo.params[op["name"]] = op["val"]
+                simlib.write_param(mo.live, mo.kind, mo.params, op["name"], op["val"])
+            for r in self.sims:
+                if r.model_i == op["m"]:
+                    r.lin_dirty = True
             return "ok"
 
         if name == "rho":
             with ctx.sut():
                 rec.live.rho = op["val"]
             rec.rho = op["val"]
+            rec.lin_dirty = True
             return "ok"
 
         if name == "rayleigh":
@@ -307,13 +391,20 @@ class FreshWorld(World):
                 else:
                     mrec.live.coord = self._new_coord(mrec, op)
             self._mesh_moved(mrec)
+            for r in self.sims:
+                if r.mesh_i == op["mesh"]:
+                    r.lin_dirty = True
             ctx.probe("mesh_moved_" + name)
             return "ok"
 
         if name == "setmesh":
+            if rec.type == "WeakForms":
+                return "skip"
             mrec = self.meshes[op["mesh"]]
             with ctx.sut():
                 rec.live.mesh = mrec.live
+            rec.extra_reset = True
+            rec.lin_dirty = True
             rec.mesh_i = op["mesh"]
             rec.mesh_hist.append(op["mesh"])
             rec.hist_i = len(rec.mesh_hist) - 1
@@ -351,9 +442,15 @@ class FreshWorld(World):
         if name == "result":
             if op["name"] not in simlib.sim_results(rec.type, self.dim):
                 return "skip"
+            if rec.type in ("HyperElastic",) and not rec.solved:
+                return "skip"
+            if rec.type == "PhaseField" and op["name"] in ("Wdef", "Psi_Crack") and not rec.lin_dirty:
+                return "skip"
             F = self.fresh_sim(rec)
             with ctx.sut():
                 ref = F.Result(op["name"], op["nodeValues"])
+            if ref is None:
+                return "skip"
             try:
                 with ctx.sut():
                     got = rec.live.Result(op["name"], op["nodeValues"])
@@ -364,6 +461,8 @@ class FreshWorld(World):
             return "ok"
 
         if name == "save_iter":
+            if rec.type == "PhaseField" and not rec.pf_solved:
+                return "skip"  # PhaseField.Save_Iter stores the convergence info of the last Solve
             with ctx.sut():
                 rec.live.Save_Iter()
             rec.iters.append(rec.hist_i)
@@ -377,6 +476,8 @@ class FreshWorld(World):
             with ctx.sut():
                 rec.live.Set_Iter(op["i"])
             rec.hist_i = h
+            rec.lin_dirty = True
+            rec.extra_reset = False
             rec.mesh_i = rec.mesh_hist[h]
             if h != cur:
                 # going back to another mesh of the history: node ids differ, a user re-states the conditions
@@ -396,8 +497,10 @@ class FreshWorld(World):
         tags = simlib.boundary_tags(mrec.raw) + ["S0", "V0"]
         if op["tag"] not in tags:
             return "skip"
-        if not set(op["unknowns"]) <= set(simlib.all_unknowns(rec.type, self.dim)):
+        if not set(op["unknowns"]) <= set(live.Get_unknowns()):
             return "skip"
+        if rec.type == "PhaseField" and op.get("kind") == "volumeLoad":
+            return "skip"  # PhaseField does not override add_volumeLoad: its default problem type is the damage problem
         F = self.fresh_sim(rec, with_state=False)
 
         def do(sim):
@@ -444,12 +547,13 @@ class FreshWorld(World):
         live = rec.live
         F = self._compare_systems(rec, "pre-solve")
         before = simlib.get_state(live)
-        fault = op.get("fault")
+        before_x = simlib.get_extra(live, rec.type)
+        fault = op.get("fault") if self.cfg.get("faults") else None
         if fault:
             self.solver.arm(fault)
         try:
             with ctx.sut():
-                live.Solve()
+                simlib.solve(live, rec.type)
             failed = None
         except SutError as e:
             failed = e
@@ -459,24 +563,39 @@ class FreshWorld(World):
             # the injected failure fired inside this Solve
             if failed is None:
                 raise Violation("fault-swallowed", "an injected back-end failure did not surface from Solve()")
-            after = simlib.get_state(live)
-            for pt in before:
-                for a, b, nm in zip(after[pt], before[pt], "uva"):
-                    if not np.array_equal(a, b):
-                        raise Violation("failed-solve-changed-state", f"{nm}_n ({pt}) changed by a Solve that raised {failed}")
-            ctx.checked()
+            if rec.type != "PhaseField":
+                # (the staggered phase-field loop commits sub-steps; a failure in its middle legitimately leaves
+                #  the fields of the last completed sub-step -- only the single-solve types are all-or-nothing)
+                after = simlib.get_state(live)
+                for pt in before:
+                    for a, b, nm in zip(after[pt], before[pt], "uva"):
+                        if not np.array_equal(a, b, equal_nan=True):
+                            raise Violation("failed-solve-changed-state", f"{nm}_n ({pt}) changed by a Solve that raised {failed}")
+                if rec.type == "InElastic":
+                    ax = simlib.get_extra(live, rec.type)
+                    for k in before_x["zOld"]:
+                        if not np.array_equal(ax["zOld"][k], before_x["zOld"][k]):
+                            raise Violation("failed-solve-changed-state", f"committed internal variables changed by a Solve that raised {failed}")
+                ctx.checked()
             ctx.probe("solve_failed_by_fault")
+            if rec.type == "PhaseField":
+                # restart both sides from the pre-solve state: the reference never saw the fault
+                simlib.set_state(live, before)
+                simlib.set_extra(live, rec.type, before_x)
+                live.Need_Update()
             # retry: must now equal the unfaulted reference
             try:
                 with ctx.sut():
-                    live.Solve()
+                    simlib.solve(live, rec.type)
+                failed = None
             except SutError as e:
-                raise Violation("retry-after-fault-raises", f"Solve after an injected failure raised {e}", e.site)
+                if not simlib.is_nonconvergence(e.exc):
+                    raise Violation("retry-after-fault-raises", f"Solve after an injected failure raised {e}", e.site)
+                failed = e
             ctx.probe("solve_retried")
-            failed = None
         try:
             with ctx.sut():
-                F.Solve()
+                simlib.solve(F, rec.type)
             fref = None
         except SutError as e:
             fref = e
@@ -485,15 +604,25 @@ class FreshWorld(World):
         if failed is None and fref is not None:
             raise Violation("fresh-raises-live-succeeds", f"fresh Solve raised {fref}", fref.site)
         if failed is not None:
+            if simlib.is_nonconvergence(failed.exc):
+                ctx.probe("solve_not_converged_both")
             return "exc:both:" + failed.kind
         sl, sf = simlib.get_state(live), simlib.get_state(F)
         for pt in sf:
             if not np.all(np.isfinite(sf[pt][0])):
-                raise Discard("fresh solution not finite (singular system)")
+                raise Discard("fresh solution not finite (singular system or degenerate split)")
+            # rates are differences of displacements divided by dt (dt^2): their round-off floor scales accordingly
+            uscale = max(refs.maxabs(sf[pt][0]), refs.maxabs(before[pt][0]), 1e-300)
+            dt = rec.algo.get("dt", 1.0)
+            floors = {"u": 1e-13, "v": 1e-11 * uscale / dt + 1e-13, "a": 1e-11 * uscale / dt**2 + 1e-13}
             for a, b, nm in zip(sl[pt], sf[pt], "uva"):
-                refs.require_close("stale-solution", f"{nm} ({pt}) after Solve, live vs fresh [{rec.algo['algo']}]", a, b, rtol=1e-7, atol=1e-13)
+                refs.require_close("stale-solution", f"{nm} ({pt}) after Solve, live vs fresh [{rec.type}, {rec.algo['algo']}]", a, b, rtol=1e-7, atol=floors[nm])
                 ctx.checked()
         rec.solved = True
+        rec.extra_reset = False
+        if rec.type == "PhaseField":
+            rec.pf_solved = True
+            rec.lin_dirty = False
         if rec.algo["algo"] != "elliptic":
             ctx.phys_time += rec.algo["dt"]
         return "ok"
